@@ -9,6 +9,7 @@ from hypothesis import strategies as st
 from lib import cas, gen_nets, refmodel
 from lib import spec as S
 from lib.harness import crashed, guarded
+from lib.sut import np
 
 ID = "C01"
 RULE = (
@@ -44,7 +45,7 @@ def cases(draw):
     n = draw(st.integers(1, 3))
     states = [draw(gen_nets.states(sp)) for _ in range(n)]
     comp = draw(st.sampled_from([None, None, None, "SX", "MX"]))
-    return {"spec": sp, "states": states, "compile": comp}
+    return {"spec": sp, "states": states, "compile": comp, "rollout": draw(st.booleans())}
 
 
 def strategy(tier):
@@ -129,3 +130,44 @@ def check_case(case, ctx):
                     )
         if structural and not has_nan and not variants:
             ctx.nontrivial = True
+        if case.get("rollout") and not crashed(got) and state is case["states"][0]:
+            rollout(ctx, sp, state, got, built)
+
+
+def rollout(ctx, sp, state, got, built):
+    """The usual simulation loop: feed the very objects in next_states back as initial conditions of
+    the next step on the same network objects, and compare that second step with the reference."""
+    import math
+
+    nxt = got[0]
+    state2 = {i: {v: list(x) for v, x in s_.items()} for i, s_ in state.items()}
+    for i, vs in nxt.items():
+        for var, arr in vs.items():
+            state2[i][var] = [float(x) for x in arr]
+    vals = [x for i in nxt for arr in state2[i].values() for x in arr if not math.isinf(x)]
+    if not all(math.isfinite(x) and x >= 0 for x in vals) or S.singular(sp, state2):
+        ctx.label("rollout-skipped")
+        return
+    ctx.label("rollout")
+    net, els, _ = built
+    ic = {}
+    for i, el in els.items():
+        if el.states is None and el.disturbances is None:
+            continue
+        d = {}
+        if el.next_states:
+            d.update(el.next_states)  # the same objects, as a simulation loop does
+        for grp in (el.actions, el.disturbances):
+            if grp:
+                d.update(grp)
+        ic[el] = d
+    from lib.sut import NumpyEngine
+
+    r = guarded(ctx, "numpy-rollout", lambda: net.step(init_conditions=ic, engine=NumpyEngine(), **S.pars_kwargs(sp)))
+    if crashed(r):
+        return
+    got2 = {i: {k: np.asarray(v, dtype=float).reshape(-1) for k, v in el.next_states.items()} for i, el in els.items() if el.next_states}
+    ref2 = refmodel.ref_step(sp, state2)[0]
+    refs2 = [ref2] + [refmodel.ref_step(sp, state2, v)[0] for v in refmodel.underdetermined_variants(sp, state2)]
+    for (i, var, k, g, r_, sc) in refmodel.compare(got2, refs2):
+        ctx.fail("rollout:" + signature(sp, "numpy", i, var, k), f"second step fed with the first step's next_states objects: {var}+ of {i}[{k}] = {g!r}, reference {r_!r}")
